@@ -24,7 +24,7 @@ CLAIM = {
  'design_ref': 'DESIGN.md section 6 C20',
 }
 
-RULE = ('size independence: for every format, files whose header part (declarations, comment runs, titles, first visible record, records after the LIS header) or total size is 2^k + d for k = 9..16 and small d; path histories: one path reused for every ordered pair of contents (valid files of every format, damaged variants, non-files), identified through binary_file_type_from_path, an open file and a named in-memory file, each answer compared with the answer for the same bytes through a plain BytesIO; valid files: bundled example_data plus generated RP66V1 (any conformant SUL, any body), LIS written by File.FileWrite '
+RULE = ('size independence: for every format, files whose header part (declarations, comment runs, titles, first visible record, records after the LIS header) or total size is 2^k + d for k = 9..16 and small d; path histories: one path reused for every ordered pair of contents (valid files of every format, damaged variants, non-files), identified through binary_file_type_from_path, an open file and a named in-memory file, each answer compared with the answer for the same bytes through a plain BytesIO; valid files: bundled example_data plus generated RP66V1 (any conformant SUL, any body), PADDED LIS (own encoder: null / non-null PAD bytes after physical records to a multiple of 2/4/8 bytes or a minimum record size 64/80/128, TIF next pointers skipping the padding, unused attribute bits, > 100 physical records; without TIF only the paddings the reader can resynchronise on), LIS written by File.FileWrite '
         '(reel/tape/file header first; TIF off/on/reversed; any PR length/trailer), LAS 1.2/2.0/3.0 layouts, BIT, DAT, SEG-Y, RP66V2, '
         'LISVER and magic-number formats, each with varying content and size; arbitrary bytes: random, every truncation length <= 400 '
         'and random longer ones, byte mutations/bit flips of valid files of every format, EBCDIC-printable blocks, LAS-like text with odd '
@@ -186,9 +186,9 @@ def pools():
     return _POOLS
 
 
-GENS = ['rp66v1', 'rp66v1t', 'rp66v1tr', 'lis', 'las12', 'las20', 'las30', 'bit', 'dat', 'segy', 'rp66v2', 'lisver', 'ascii',
+GENS = ['rp66v1', 'rp66v1t', 'rp66v1tr', 'lis', 'lispad', 'las12', 'las20', 'las30', 'bit', 'dat', 'segy', 'rp66v2', 'lisver', 'ascii',
         'RCD', 'STK', 'CFBF', 'PDS', 'XML', 'PDF', 'PS', 'ZIP', 'TIFF', 'JPEG']
-SUPPORTED = {'rp66v1', 'lis', 'las12', 'las20', 'bit', 'dat'}
+SUPPORTED = {'rp66v1', 'lis', 'lispad', 'las12', 'las20', 'bit', 'dat'}
 
 
 def generate(name, seed):
@@ -199,6 +199,7 @@ def generate(name, seed):
     if name == 'rp66v1t': return G.gen_rp66v1_tif(rng, False)
     if name == 'rp66v1tr': return G.gen_rp66v1_tif(rng, True)
     if name == 'lis': return G.gen_lis(rng, P['lis'])
+    if name == 'lispad': return G.gen_lis_padded(rng, P['lis'])
     if name == 'las12': return G.gen_las(rng, '1.2', P['las'])
     if name == 'las20': return G.gen_las(rng, '2.0', P['las'])
     if name == 'las30': return G.gen_las(rng, '3.0', P['las'])
@@ -474,7 +475,7 @@ def history_contents(ctx):
         for _ in range(40):
             seed = rng.getrandbits(48)
             b, expect, rec = generate(name, seed)
-            if len(b) <= 40000 and not (name == 'lis' and rec.get('first_pr') == 276):
+            if len(b) <= 40000 and not (name in ('lis', 'lispad') and rec.get('first_pr') == 276):
                 break
         out.append({'gen': name, 'seed': seed, 'label': expect})
         if name in SUPPORTED or name in ('rp66v1t', 'las30'):
@@ -566,7 +567,7 @@ def run(ctx):
                 seed = rng.getrandbits(48)
                 target = 2 ** kk + d
                 b, expect, rec = generate_sized(name, target, seed)
-                if name == 'lis' and expect != 'LIS' and rec.get('first_pr') == 276:
+                if name in ('lis', 'lispad') and expect != 'LIS' and rec.get('first_pr') == 276:
                     expect = None
                 B.run_one('sized:' + name, b, {'sized': name, 'target': target, 'seed': seed}, expect=expect, check_path=(d == 0 and kk % 4 == 0))
         B.flush()
@@ -581,7 +582,7 @@ def run(ctx):
             seed = rng.getrandbits(48)
             b, expect, rec = generate(name, seed)
             origin = {'gen': name, 'seed': seed}
-            if name == 'lis' and expect != 'LIS' and rec.get('first_pr') == 276:
+            if name in ('lis', 'lispad') and expect != 'LIS' and rec.get('first_pr') == 276:
                 expect = None      # the stated exclusion: TIF-marked, first record exactly 276 bytes (BIT signature)
             B.run_one('valid:' + name, b, origin, expect=expect, check_path=(k % 10 == 0))
             if k < ctx.n(2, 6):
@@ -673,7 +674,7 @@ def search(ctx):
         for _ in range(600):
             seed = ctx.rng.getrandbits(48)
             b, expect, rec = generate(name, seed)
-            if name == 'lis' and expect != 'LIS' and rec.get('first_pr') == 276:
+            if name in ('lis', 'lispad') and expect != 'LIS' and rec.get('first_pr') == 276:
                 expect = None
             B.run_one('search:' + name, b, {'gen': name, 'seed': seed}, expect=expect)
         B.pending = []
